@@ -108,7 +108,7 @@ CLAIMED = {
             "encoded_len vs the varint boundaries for every bit-length class; CONNECT flags, subscription options and "
             "PUBLISH flags bit by bit with their guards; CONNECT field wiring and the field order of all packet "
             "serializers; checked u16 length prefixes. This covers all property kinds x packets without enumerating "
-            "values. Byte-level round trips and user payload closures are not decided. Properties::size adds up encoded sizes, never element counts. The publication builder keeps a correlation entry whatever user properties are installed before or after it (C20's clauses). Header QoS and identifier allocation use the same effective QoS (C19's rule).",
+            "values. Byte-level round trips and user payload closures are not decided. Properties::size adds up encoded sizes, never element counts. The integer primitives of serializer and deserializer are big-endian in stream order. The publication builder keeps a correlation entry whatever user properties are installed before or after it (C20's clauses). Header QoS and identifier allocation use the same effective QoS (C19's rule).",
             "DESIGN.md §4 C09"),
     "C10": ("who-may-write + dependence (fields read by the ping-due test) + dominance/post-dominance + decision-table "
             "extraction (truth table of the due test over the Option states) + interval abstract interpretation of the "
